@@ -30,6 +30,7 @@ import (
 	security "istio.io/api/security/v1beta1"
 	telemetry "istio.io/api/telemetry/v1alpha1"
 	typev1beta1 "istio.io/api/type/v1beta1"
+	"istio.io/istio/pilot/pkg/model"
 	"istio.io/istio/pkg/config"
 	"istio.io/istio/pkg/config/mesh"
 	"istio.io/istio/pkg/config/schema/gvk"
@@ -39,11 +40,18 @@ import (
 
 // obj is one insertable object of a mesh.
 type obj struct {
-	cfg  *config.Config // an Istio config object, or
-	k8s  runtime.Object // a Kubernetes object
-	twin runtime.Object // Kubernetes copy of an Istio config object that the ambient index reads from the cluster
-	desc string         // kind/namespace/name, for reports
-	feat string         // feature class, for distribution counters
+	cfg   *config.Config // an Istio config object, or
+	k8s   runtime.Object // a Kubernetes object
+	twin  runtime.Object // Kubernetes copy of an Istio config object that the ambient index reads from the cluster
+	desc  string         // kind/namespace/name, for reports
+	shard *shardSpec     // endpoints of a service in a second cluster, pushed as their own shard (XDSUpdater.EDSUpdate)
+	feat  string         // feature class, for distribution counters
+}
+
+// shardSpec: the endpoints a second cluster contributes to a service.
+type shardSpec struct {
+	host, ns string
+	eps      []*model.IstioEndpoint
 }
 
 type meshDesc struct {
@@ -70,10 +78,13 @@ type mgen struct {
 	hosts   []string // host pool of this mesh (k8s + external)
 	nsHosts []string // the same hosts as "namespace/host" (exact, namespaced egress host entries)
 	// bias: number of distinct creation timestamps
-	nTimes   int
-	podIP    int
-	scale    int  // 1, or 3 for the occasional large mesh
-	multiNet bool // some pods live on network n2
+	nTimes      int
+	podIP       int
+	scale       int  // 1, or 3 for the occasional large mesh
+	multiNet    bool // some pods live on network n2
+	fpOK        bool // the DestinationRule being generated may use failoverPriority
+	twoClusters bool // some Kubernetes services also exist, with other pods, in a second cluster: two endpoint shards
+	extProv     bool // MeshConfig has extra extension providers (second metrics / access log provider, tracing, ext_authz)
 }
 
 func (g *mgen) upTo(n int) int { return g.r.Intn(n*g.sc() + 1 - g.sc()/2) }
@@ -160,6 +171,26 @@ func (g *mgen) k8sObjects() {
 				svc.Annotations = map[string]string{"networking.istio.io/exportTo": g.pick([]string{".", "*", "ns1", "default,ns1"})}
 			}
 			g.addK8s("k8s-service", "Service/"+ns+"/"+name, svc)
+			if g.twoClusters && g.r.Chance(2, 3) {
+				// the same service has endpoints in a second cluster: a second shard (Kubernetes/c2) in the EndpointIndex
+				// (EndpointShards.Keys, CopyEndpoints). The shard is pushed the way a remote cluster's registry does it,
+				// through XDSUpdater.EDSUpdate; a second kube registry is not used because the test server adds its
+				// clusters in map order and the aggregate controller lets the first registry define a shared service.
+				sh := &shardSpec{host: name + "." + ns + ".svc.cluster.local", ns: ns}
+				for p, np := 0, 1+g.r.Intn(3); p < np; p++ {
+					ip := fmt.Sprintf("10.30.%d.%d", cip, p+1)
+					for _, sp := range ports {
+						sh.eps = append(sh.eps, &model.IstioEndpoint{
+							Addresses: []string{ip}, EndpointPort: uint32(sp.TargetPort.IntVal), ServicePortName: sp.Name,
+							Labels:         map[string]string{"app": name, "version": g.pick([]string{"v1", "v2"}), "topology.istio.io/cluster": "c2"},
+							ServiceAccount: "spiffe://cluster.local/ns/" + ns + "/sa/default", Namespace: ns, WorkloadName: fmt.Sprintf("%s-c2-%d", name, p),
+							Locality: model.Locality{Label: g.pick([]string{"r2/z2", "r1/z1", "r2/z1"}), ClusterID: "c2"}, TLSMode: "istio",
+							HostName: fmt.Sprintf("%s-c2-%d", name, p), SubDomain: name,
+						})
+					}
+				}
+				g.objs = append(g.objs, obj{shard: sh, desc: "Shard/c2/" + ns + "/" + name, feat: "remote-cluster-shard"})
+			}
 			// pods + endpoint slices
 			npods := 1 + g.r.Intn(6)
 			if g.r.Chance(1, 6) {
@@ -606,7 +637,25 @@ func (g *mgen) virtualServices(gateways []string) {
 
 func (g *mgen) trafficPolicy(depth int) *networking.TrafficPolicy {
 	tp := &networking.TrafficPolicy{}
-	switch g.r.Intn(5) {
+	lbKind := g.r.Intn(6)
+	if lbKind == 4 && !g.fpOK {
+		// failoverPriority only on DestinationRules for Kubernetes services (EDS clusters). On a cluster with an inline
+		// load assignment (STATIC / DNS ServiceEntry) the real code panics during CDS generation:
+		// loadbalancer.go applyFailoverPriorityPerLocality indexes LocalityLbEndpoints.LbEndpoints with the indexes of
+		// IstioEndpoints - `index out of range [1] with length 1` (first seen: `perm seed=504146508`; reproducer: witness
+		// mesh `failover-priority-inline-cluster`, not in the corpus). A crash, not an order dependence: reported to the
+		// coordinator (notes/C17.md) and kept out of the generated meshes.
+		lbKind = 3
+	}
+	switch lbKind {
+	case 4:
+		// failoverPriority: endpoint priorities from label matches with the proxy (needs outlier detection, below)
+		tp.LoadBalancer = &networking.LoadBalancerSettings{
+			LbPolicy: &networking.LoadBalancerSettings_Simple{Simple: networking.LoadBalancerSettings_ROUND_ROBIN},
+			LocalityLbSetting: &networking.LocalityLoadBalancerSetting{
+				FailoverPriority: []string{"topology.kubernetes.io/region", "version", "topology.kubernetes.io/zone"},
+			},
+		}
 	case 0:
 		tp.LoadBalancer = &networking.LoadBalancerSettings{LbPolicy: &networking.LoadBalancerSettings_Simple{Simple: networking.LoadBalancerSettings_LEAST_REQUEST}}
 	case 1:
@@ -636,7 +685,7 @@ func (g *mgen) trafficPolicy(depth int) *networking.TrafficPolicy {
 			Http: &networking.ConnectionPoolSettings_HTTPSettings{Http1MaxPendingRequests: 5, MaxRequestsPerConnection: 2},
 		}
 	}
-	if g.r.Chance(1, 3) {
+	if g.r.Chance(1, 3) || ((lbKind == 3 || lbKind == 4) && g.r.Chance(2, 3)) {
 		tp.OutlierDetection = &networking.OutlierDetection{Consecutive_5XxErrors: wrapperspb.UInt32(3), Interval: durationpb.New(time.Second), BaseEjectionTime: durationpb.New(time.Minute)}
 	}
 	switch g.r.Intn(5) {
@@ -672,6 +721,7 @@ func (g *mgen) destinationRules() {
 			h = g.pick([]string{"*.example.com", "*.default.svc.cluster.local", "*.wild.example.com"})
 		}
 		dr := &networking.DestinationRule{Host: h}
+		g.fpOK = strings.HasSuffix(h, ".svc.cluster.local") && !strings.Contains(h, "*") && !strings.HasPrefix(h, "ext")
 		if g.r.Chance(2, 3) {
 			dr.TrafficPolicy = g.trafficPolicy(0)
 		}
@@ -858,7 +908,16 @@ func (g *mgen) security() {
 	}
 	for i, n := 0, g.r.Intn(4); i < n; i++ {
 		ns := g.pick(meshNamespaces)
-		ap := &security.AuthorizationPolicy{Action: security.AuthorizationPolicy_Action(g.r.Intn(2))}
+		// all four actions: ALLOW, DENY, AUDIT, CUSTOM (CUSTOM names an ext_authz provider of the MeshConfig)
+		ap := &security.AuthorizationPolicy{Action: security.AuthorizationPolicy_Action(g.r.Intn(4))}
+		if ap.Action == security.AuthorizationPolicy_CUSTOM {
+			if g.extProv {
+				ap.ActionDetail = &security.AuthorizationPolicy_Provider{Provider: &security.AuthorizationPolicy_ExtensionProvider{
+					Name: g.pick([]string{"ext-authz-http", "ext-authz-grpc"})}}
+			} else {
+				ap.Action = security.AuthorizationPolicy_DENY
+			}
+		}
 		if g.r.Chance(1, 2) {
 			ap.Selector = &typev1beta1.WorkloadSelector{MatchLabels: map[string]string{"app": "a"}}
 		}
@@ -877,18 +936,28 @@ func (g *mgen) security() {
 		}
 		g.addCfg("authorizationpolicy", g.meta(gvk.AuthorizationPolicy, "ap"+strconv.Itoa(i), ns), ap)
 	}
-	for i, n := 0, g.r.Intn(3); i < n; i++ {
+	for i, n := 0, g.r.Intn(4); i < n; i++ {
 		ns := g.pick(meshNamespaces)
 		ra := &security.RequestAuthentication{}
 		if g.r.Chance(1, 2) {
 			ra.Selector = &typev1beta1.WorkloadSelector{MatchLabels: map[string]string{g.pick([]string{"app", "istio"}): g.pick([]string{"a", "ingressgateway"})}}
 		}
 		for k, m := 0, 1+g.r.Intn(2); k < m; k++ {
-			ra.JwtRules = append(ra.JwtRules, &security.JWTRule{
-				Issuer: fmt.Sprintf("issuer-%d@example.com", g.r.Intn(3)), Jwks: testJwks,
-				FromHeaders:          []*security.JWTHeader{{Name: "x-jwt", Prefix: "Bearer "}},
+			// few issuers: rules of different (and equally old) RequestAuthentications share an issuer and differ in
+			// content (audiences, header, forwarding) - the merged JWT filter depends on the order of the policies
+			rule := &security.JWTRule{
+				Issuer: fmt.Sprintf("issuer-%d@example.com", g.r.Intn(2)), Jwks: testJwks,
+				FromHeaders:          []*security.JWTHeader{{Name: g.pick([]string{"x-jwt", "x-jwt-b"}), Prefix: "Bearer "}},
 				OutputClaimToHeaders: []*security.ClaimToHeader{{Header: "x-sub", Claim: "sub"}, {Header: "x-grp", Claim: "groups"}},
-			})
+			}
+			if g.r.Chance(2, 3) {
+				rule.Audiences = [][]string{{"aud-a"}, {"aud-b", "aud-a"}, {"aud-c"}}[g.r.Intn(3)]
+			}
+			rule.ForwardOriginalToken = g.r.Chance(1, 2)
+			if g.r.Chance(1, 3) {
+				rule.FromParams = []string{"token", "access_token"}
+			}
+			ra.JwtRules = append(ra.JwtRules, rule)
 		}
 		g.addCfg("requestauthentication", g.meta(gvk.RequestAuthentication, "ra"+strconv.Itoa(i), ns), ra)
 	}
@@ -940,7 +1009,7 @@ func (g *mgen) extensions() {
 		}
 		g.addCfg("envoyfilter", g.meta(gvk.EnvoyFilter, "ef"+strconv.Itoa(i), ns), ef)
 	}
-	for i, n := 0, g.r.Intn(3); i < n; i++ {
+	for i, n := 0, g.r.Intn(4); i < n; i++ {
 		ns := g.pick(meshNamespaces)
 		tl := &telemetry.Telemetry{}
 		if g.r.Chance(1, 3) {
@@ -948,7 +1017,7 @@ func (g *mgen) extensions() {
 		}
 		if g.r.Chance(2, 3) {
 			tl.Metrics = []*telemetry.Metrics{{
-				Providers: []*telemetry.ProviderRef{{Name: "prometheus"}},
+				Providers: g.providerRefs("prometheus", "prom-b"),
 				Overrides: []*telemetry.MetricsOverrides{{
 					Match: &telemetry.MetricSelector{MetricMatch: &telemetry.MetricSelector_Metric{Metric: telemetry.MetricSelector_IstioMetric(g.r.Intn(3))}},
 					TagOverrides: map[string]*telemetry.MetricsOverrides_TagOverride{
@@ -960,11 +1029,27 @@ func (g *mgen) extensions() {
 				}},
 			}}
 		}
+		if g.extProv && len(tl.Metrics) > 0 && g.r.Chance(2, 3) {
+			// a second Metrics entry for the OTHER prometheus provider with different overrides: the two stats filters differ,
+			// so their order in the HTTP / TCP filter chain is visible (telemetry.go walks the providers in sorted order)
+			other := "prom-b"
+			if len(tl.Metrics[0].Providers) > 0 && tl.Metrics[0].Providers[0].Name == "prom-b" {
+				other = "prometheus"
+			}
+			tl.Metrics[0].Providers = tl.Metrics[0].Providers[:1]
+			tl.Metrics = append(tl.Metrics, &telemetry.Metrics{
+				Providers: []*telemetry.ProviderRef{{Name: other}},
+				Overrides: []*telemetry.MetricsOverrides{{
+					Match:        &telemetry.MetricSelector{MetricMatch: &telemetry.MetricSelector_Metric{Metric: telemetry.MetricSelector_REQUEST_DURATION}},
+					TagOverrides: map[string]*telemetry.MetricsOverrides_TagOverride{"other1": {Value: "request.method"}, "other2": {Operation: telemetry.MetricsOverrides_TagOverride_REMOVE}},
+				}},
+			})
+		}
 		if g.r.Chance(1, 2) {
-			tl.AccessLogging = []*telemetry.AccessLogging{{Providers: []*telemetry.ProviderRef{{Name: "envoy"}}}}
+			tl.AccessLogging = []*telemetry.AccessLogging{{Providers: g.providerRefs("envoy", "envoy-b")}}
 		}
 		if g.r.Chance(1, 3) {
-			tl.Tracing = []*telemetry.Tracing{{RandomSamplingPercentage: wrapperspb.Double(10), CustomTags: map[string]*telemetry.Tracing_CustomTag{
+			tl.Tracing = []*telemetry.Tracing{{Providers: g.tracingRefs(), RandomSamplingPercentage: wrapperspb.Double(10), CustomTags: map[string]*telemetry.Tracing_CustomTag{
 				"ct1": {Type: &telemetry.Tracing_CustomTag_Literal{Literal: &telemetry.Tracing_Literal{Value: "a"}}},
 				"ct2": {Type: &telemetry.Tracing_CustomTag_Header{Header: &telemetry.Tracing_RequestHeader{Name: "x-b"}}},
 				"ct3": {Type: &telemetry.Tracing_CustomTag_Environment{Environment: &telemetry.Tracing_Environment{Name: "E"}}},
@@ -996,6 +1081,39 @@ func (g *mgen) extensions() {
 	}
 }
 
+// providerRefs: the first provider, and in meshes with extra extension providers the second one too, in either order.
+func (g *mgen) providerRefs(first, second string) []*telemetry.ProviderRef {
+	if !g.extProv {
+		return []*telemetry.ProviderRef{{Name: first}}
+	}
+	switch g.r.Intn(4) {
+	case 0:
+		return []*telemetry.ProviderRef{{Name: first}}
+	case 1:
+		return []*telemetry.ProviderRef{{Name: second}}
+	case 2:
+		return []*telemetry.ProviderRef{{Name: second}, {Name: first}}
+	}
+	return []*telemetry.ProviderRef{{Name: first}, {Name: second}}
+}
+
+func (g *mgen) tracingRefs() []*telemetry.ProviderRef {
+	if !g.extProv || g.r.Chance(1, 4) {
+		return nil
+	}
+	return []*telemetry.ProviderRef{{Name: g.pick([]string{"zipkin-t", "otel-t"})}}
+}
+
+// providerHost: a service the tracing / ext_authz providers point at (it has to resolve, else the provider is dropped).
+func (g *mgen) providerHost() string {
+	for _, h := range g.hosts {
+		if !strings.Contains(h, "*") {
+			return h
+		}
+	}
+	return "a.default.svc.cluster.local"
+}
+
 // buildMesh derives the mesh of a seed. `size` scales nothing yet beyond the generator's own
 // randomness; it is part of the case line so that a later widening stays replayable.
 func buildMesh(seed uint64) *meshDesc {
@@ -1009,6 +1127,8 @@ func buildMesh(seed uint64) *meshDesc {
 		g.scale = 3
 	}
 	g.multiNet = g.r.Chance(1, 6)
+	g.extProv = g.r.Chance(1, 2)
+	g.twoClusters = g.r.Chance(1, 4)
 	g.k8sObjects()
 	g.gammaRoutes()
 	g.serviceEntries()
@@ -1064,6 +1184,37 @@ func (g *mgen) meshConfig() *meshconfig.MeshConfig {
 	}
 	if g.r.Chance(1, 5) {
 		m.ProxyHttpPort = 15002 // the http_proxy listener and route (mergeAllVirtualHosts)
+	}
+	if g.extProv {
+		// more than one provider per telemetry kind (the default config has one prometheus, one file access log), tracing
+		// providers (custom tags), ext_authz providers (AuthorizationPolicy CUSTOM)
+		h := g.providerHost()
+		m.ExtensionProviders = append(m.ExtensionProviders,
+			&meshconfig.MeshConfig_ExtensionProvider{Name: "prom-b", Provider: &meshconfig.MeshConfig_ExtensionProvider_Prometheus{
+				Prometheus: &meshconfig.MeshConfig_ExtensionProvider_PrometheusMetricsProvider{}}},
+			&meshconfig.MeshConfig_ExtensionProvider{Name: "envoy-b", Provider: &meshconfig.MeshConfig_ExtensionProvider_EnvoyFileAccessLog{
+				EnvoyFileAccessLog: &meshconfig.MeshConfig_ExtensionProvider_EnvoyFileAccessLogProvider{Path: "/dev/stderr",
+					LogFormat: &meshconfig.MeshConfig_ExtensionProvider_EnvoyFileAccessLogProvider_LogFormat{
+						LogFormat: &meshconfig.MeshConfig_ExtensionProvider_EnvoyFileAccessLogProvider_LogFormat_Labels{Labels: &structpb.Struct{Fields: map[string]*structpb.Value{
+							"a": structpb.NewStringValue("%REQ(:METHOD)%"), "b": structpb.NewStringValue("%RESPONSE_CODE%"), "c": structpb.NewStringValue("%DURATION%")}}}}}}},
+			&meshconfig.MeshConfig_ExtensionProvider{Name: "zipkin-t", Provider: &meshconfig.MeshConfig_ExtensionProvider_Zipkin{
+				Zipkin: &meshconfig.MeshConfig_ExtensionProvider_ZipkinTracingProvider{Service: h, Port: 80, MaxTagLength: 64}}},
+			&meshconfig.MeshConfig_ExtensionProvider{Name: "otel-t", Provider: &meshconfig.MeshConfig_ExtensionProvider_Opentelemetry{
+				Opentelemetry: &meshconfig.MeshConfig_ExtensionProvider_OpenTelemetryTracingProvider{Service: h, Port: 80,
+					ResourceDetectors: &meshconfig.MeshConfig_ExtensionProvider_ResourceDetectors{Environment: &meshconfig.MeshConfig_ExtensionProvider_ResourceDetectors_EnvironmentResourceDetector{}}}}},
+			&meshconfig.MeshConfig_ExtensionProvider{Name: "ext-authz-http", Provider: &meshconfig.MeshConfig_ExtensionProvider_EnvoyExtAuthzHttp{
+				EnvoyExtAuthzHttp: &meshconfig.MeshConfig_ExtensionProvider_EnvoyExternalAuthorizationHttpProvider{Service: h, Port: 80,
+					IncludeRequestHeadersInCheck: []string{"x-b", "x-a"}, HeadersToUpstreamOnAllow: []string{"x-u2", "x-u1"},
+					IncludeAdditionalHeadersInCheck: map[string]string{"x-add-b": "2", "x-add-a": "1", "x-add-c": "3"}}}},
+			&meshconfig.MeshConfig_ExtensionProvider{Name: "ext-authz-grpc", Provider: &meshconfig.MeshConfig_ExtensionProvider_EnvoyExtAuthzGrpc{
+				EnvoyExtAuthzGrpc: &meshconfig.MeshConfig_ExtensionProvider_EnvoyExternalAuthorizationGrpcProvider{Service: h, Port: 80}}},
+		)
+		if g.r.Chance(1, 2) {
+			m.DefaultProviders = &meshconfig.MeshConfig_DefaultProviders{Metrics: []string{"prom-b", "prometheus"}, AccessLogging: []string{"envoy-b", "envoy"}}
+			if g.r.Chance(1, 2) {
+				m.DefaultProviders.Tracing = []string{"zipkin-t"}
+			}
+		}
 	}
 	if g.r.Chance(1, 6) {
 		m.ServiceSettings = []*meshconfig.MeshConfig_ServiceSettings{{Settings: &meshconfig.MeshConfig_ServiceSettings_Settings{ClusterLocal: true},
